@@ -372,6 +372,44 @@ R.contract(
 R.spec_funcs["deep"] = lambda it, v: it.B._deepcopy(v, {})
 R.spec_funcs["same_map"] = lambda it, a, b: (a is None and b is None) if (a is None or b is None) else __import__("pyvc.ops", fromlist=["eq"]).eq(a, b)
 
+
+# ------------------------------------------------------------------------------------------------- Case.call: session, headers, params, cookies and transport options reach the transport unchanged
+CASE14 = "schemathesis.generation.case:"
+R.contract("schemathesis.hooks:HookContext", abstract_only=True, args={}, returns=lambda it, env: ("hook-context", env.get("operation")), note="dataclass constructor")
+# (the name `dispatch` as imported into case.py: GLOBAL_HOOK_DISPATCHER.dispatch - global before_call / after_call hooks, C19 contracts)
+R.module_values["schemathesis.generation.case:dispatch"] = __import__("pyvc.interp", fromlist=["BuiltinFn"]).BuiltinFn(
+    "dispatch", lambda it, a, k: it.ghost.__setitem__("log", it.ghost["log"] + [("hook", a[0])]))
+
+
+def _transport_send(it, obj, a, k):
+    it.ghost["log"] = it.ghost["log"] + [("send", a[0], dict(k))]
+    r = fresh_opaque(it, "ResponseRef")
+    it.ghost["response"] = r
+    return r
+
+
+R.nominal_methods["spec:CallTransport"] = {"send": _transport_send}
+R.contract(
+    CASE14 + "Case.call",
+    prop="C14",
+    args={"self": Obj("spec:CalledCase", operation=Obj("spec:CalledOp", app=OneOf(NoneT, Opq("WsgiApp")), schema=Obj("spec:CalledSchema", transport=Obj("spec:CallTransport")))),
+          "base_url": Opt(Str), "session": OneOf(NoneT, Opq("SessionRef")), "headers": OneOf(NoneT, Opq("HeadersRef")), "params": OneOf(NoneT, Opq("ParamsRef")), "cookies": OneOf(NoneT, Opq("CookiesRef")),
+          "kwargs": DictOf(optional={"timeout": Int, "verify": Bool})},
+    ghost={"log": [], "response": None},
+    raises=[],
+    ensures={
+        # whatever the caller configured (the engine's session with its auth, extra headers, query parameters, cookies, timeout, TLS settings) is what the transport sends with
+        "everything_given_reaches_the_transport": "[x[0] for x in ghost('log')] == ['hook', 'send', 'hook'] and ghost('log')[1][1] is self and "
+            "same(ghost('log')[1][2]['session'], session) and same(ghost('log')[1][2]['base_url'], base_url) and same(ghost('log')[1][2]['headers'], headers) and "
+            "same(ghost('log')[1][2]['params'], params) and same(ghost('log')[1][2]['cookies'], cookies) and all(k in ghost('log')[1][2] and same(ghost('log')[1][2][k], kwargs[k]) for k in old(dict(kwargs)))",
+        "nothing_else_is_passed_except_the_wsgi_app": "length(ghost('log')[1][2]) == 5 + old(length(kwargs)) + (1 if self.operation.app is not None else 0)",
+        "before_call_hooks_first_after_call_hooks_last": "ghost('log')[0] == ('hook', 'before_call') and ghost('log')[2] == ('hook', 'after_call')",
+        "the_transports_response_is_returned": "result is ghost('response')",
+    },
+    bounded_note="two transport options",
+    replayable=False,
+)
+
 LEVEL_TEXT = ("Deductive: header precedence, override restriction (loop invariant over any number of parameters) and the token cache's double-checked lock "
               "under an explicit rely condition (cache havoced at lock acquisition) are postconditions on the real functions, discharged by z3.")
 LEVEL_NOTE = "Trusted: CaseInsensitiveDict, threading.Lock as synchronisation point (rely), frozen timer, pyvc semantics (E9). Free interleavings are not decided."
